@@ -6,6 +6,7 @@ import (
 	"reflect"
 	"strings"
 
+	"github.com/fxamacker/circlehash"
 	"github.com/onflow/atree"
 	tu "github.com/onflow/atree/test_utils"
 )
@@ -94,6 +95,11 @@ type World struct {
 	LastRet   string // rendering of what the last operation returned (for differential oracles)
 	Rets      []string
 	Commits   int
+	// KeyUniverse lists every key any operation of the space may use (for canonical digest names).
+	KeyUniverse []MV
+	// OpMaps tells which maps the space's operations may address (nil: root maps only).
+	OpMaps func(c *Cont) bool
+
 	KeyStorage bool // include storage-layer counters in the state key
 	StrictErr bool // also compare error categories/types of rejected requests (C18)
 
@@ -119,7 +125,7 @@ func NewWorld(T uint32) *World {
 
 func (w *World) typeInfo(id uint64, comp bool) atree.TypeInfo {
 	if comp {
-		return tu.NewCompositeTypeInfo(id)
+		return CompTI{id}
 	}
 	return tu.NewSimpleTypeInfo(id)
 }
@@ -317,9 +323,9 @@ func (w *World) CmpValue(real atree.Value, m MV) error {
 
 func typeInfoEqual(a atree.TypeInfo, id uint64, comp bool) bool {
 	if comp {
-		return tu.CompareTypeInfo(a, tu.NewCompositeTypeInfo(id))
+		return CompareTypeInfo(a, CompTI{id})
 	}
-	return tu.CompareTypeInfo(a, tu.NewSimpleTypeInfo(id))
+	return CompareTypeInfo(a, tu.NewSimpleTypeInfo(id))
 }
 
 func (w *World) CmpArray(a *atree.Array, m *Cont) error {
@@ -596,9 +602,76 @@ func (w *World) newValue(o Op, into *Cont) (MV, atree.Value, error) {
 		}
 		return mv, rv, nil
 	}
+	// nested container classes: [s:]*A[:cls,cls…] / [s:]*M[:cls,…] create, populate and hand over a new child
+	wraps := 0
+	cl := o.V
+	for strings.HasPrefix(cl, "s:") {
+		rest := cl[2:]
+		if strings.HasPrefix(rest, "A") || strings.HasPrefix(rest, "M") || strings.HasPrefix(rest, "s:") {
+			wraps++
+			cl = rest
+			continue
+		}
+		break
+	}
+	if isContClass(cl) {
+		isMap := cl[0] == 'M'
+		comp := strings.HasPrefix(cl, "Mc") // composite type info (compact encoding candidates)
+		addr := w.Addr
+		if into != nil {
+			addr = into.SID.Address()
+		}
+		ch, err := w.NewCont(isMap, addr, 7, comp)
+		if err != nil {
+			return nil, nil, err
+		}
+		if i := strings.IndexByte(cl, ':'); i >= 0 && i+1 < len(cl) {
+			for n, ecl := range strings.Split(cl[i+1:], ",") {
+				w.Serial++
+				ev := MakeSimple(Class(ecl), w.Serial)
+				if isMap {
+					key := w.KeyOf(n)
+					if comp {
+						key = Str{fmt.Sprintf("f%d", n)}
+					}
+					if old, err := ch.Map.Set(tu.CompareValue, tu.GetHashInput, ToAtree(key), ToAtree(ev)); err != nil || old != nil {
+						return nil, nil, violf("populating new map child: %v %v", old, err)
+					}
+					ch.Keys = append(ch.Keys, key)
+					ch.Vals = append(ch.Vals, ev)
+				} else {
+					if err := ch.Arr.Append(ToAtree(ev)); err != nil {
+						return nil, nil, violf("populating new array child: %v", err)
+					}
+					ch.Elems = append(ch.Elems, ev)
+				}
+			}
+		}
+		var mv MV = ch
+		var rv atree.Value = ToAtree(ch)
+		for i := 0; i < wraps; i++ {
+			mv = Some{mv}
+			rv = tu.NewSomeValue(rv)
+		}
+		return mv, rv, nil
+	}
 	w.Serial++
 	mv := MakeSimple(Class(o.V), w.Serial)
 	return mv, ToAtree(mv), nil
+}
+
+func isContClass(cl string) bool {
+	if cl == "" {
+		return false
+	}
+	if cl[0] != 'A' && cl[0] != 'M' {
+		return false
+	}
+	rest := cl[1:]
+	if strings.HasPrefix(rest, "c") {
+		rest = rest[1:]
+	}
+	return rest == "" || rest[0] == ':'
 }
 
 func attach(mv MV, parent *Cont) {
@@ -1091,4 +1164,53 @@ func (w *World) DeepCheck() error {
 		}
 	}
 	return nil
+}
+
+// level0Digest computes the first-level digest of key under a map seed, the way the map's
+// digester would (controlled table, or the default CircleHash64 digester).
+func (w *World) level0Digest(key MV, seed uint64) (uint64, bool) {
+	if w.Digests != nil {
+		return w.Digests.digestsOf(keyNumber(key))[0], true
+	}
+	var scratch [64]byte
+	msg, err := tu.GetHashInput(ToAtree(key), scratch[:])
+	if err != nil {
+		return 0, false
+	}
+	return circlehash.Hash64(msg, seed), true
+}
+
+// universeOfMap returns the keys future operations may use on the map with the given value id:
+// the space's key universe if the space operates on that map (OpMaps nil = roots only), plus
+// whatever keys it holds now.
+func (w *World) universeOfMap(vid atree.ValueID) []MV {
+	var c *Cont
+	for _, x := range w.Conts {
+		if x.VID == vid && !x.Dead {
+			c = x
+		}
+	}
+	var u []MV
+	if c == nil {
+		return w.KeyUniverse
+	}
+	operated := c.Parent == nil
+	if w.OpMaps != nil {
+		operated = w.OpMaps(c)
+	}
+	if operated {
+		u = append(u, w.KeyUniverse...)
+	}
+	for _, k := range c.Keys {
+		dup := false
+		for _, x := range u {
+			if mvEqualKey(x, k) {
+				dup = true
+			}
+		}
+		if !dup {
+			u = append(u, k)
+		}
+	}
+	return u
 }
